@@ -172,7 +172,7 @@ def plan(chk):
                     coin = COIN_NAMES[(n + ci) % 8]
                     specs.append(dict(case="chain", coin=coin, seed=chk.seed, n=n, kind=kind, profile=profile, blocks=rng.choice([5, 8, 16])))
             # halving boundaries
-            for k in ([1, 2, 3, 10, 32, 33, 63] if chk.thorough else [1, 33, 63]):
+            for k in ([1, 2, 3, 10, 32, 33, 63, 64, 65, 100] if chk.thorough else [1, 33, 63, 64, 70]):
                 n += 1
                 specs.append(dict(case="chain", coin=COIN_NAMES[n % 8], seed=chk.seed, n=n, kind="plain", profile=profile, blocks=6, base=210000 * k - 3))
     for profile in ("release", "debug"):
